@@ -245,13 +245,21 @@ def burst_worker(a):
         gone = set(half)
     data = ("\n".join(lines) + "\n").encode("latin-1")
     res = {"viol": [], "stats": {"burst_runs": 1, "burst_lines": len(lines), "burst_verdicts_at_quiescence": 0}, "inconc": [], "hash": vcommon.h(["burst", seed, n]), "nontrivial": bool(complete)}
-    d = daemon.Daemon(b, cfg.text(b["moddir"]), leaks=True, hooks=False, watchdog=60.0)
+    # sock: the daemon's standard input and output are ONE socket, as under an IRC server, and the reader falls behind: nothing is
+    # read while input can still be written (the daemon's writes have to wait for the reader; none may get lost)
+    d = daemon.Daemon(b, cfg.text(b["moddir"]), leaks=True, hooks=False, watchdog=60.0, transport="socketpair" if a.get("sock") else None)
+    res["stats"]["burst_runs_on_a_shared_socket"] = 1 if a.get("sock") else 0
     try:
-        os.set_blocking(d.p.stdin.fileno(), False)
+        os.set_blocking(d.ifd, False)
         pos = 0
         t_end = time.time() + 60
         while pos < len(data) and time.time() < t_end:
-            r_, w_, _ = select.select([d.ofd], [d.p.stdin.fileno()], [], 1.0)
+            if a.get("sock"):
+                r_, w_, _ = select.select([], [d.ifd], [], 0)
+                if not w_:
+                    r_, w_, _ = select.select([d.ofd], [d.ifd], [], 1.0)
+            else:
+                r_, w_, _ = select.select([d.ofd], [d.ifd], [], 1.0)
             if r_:
                 c = os.read(d.ofd, 1 << 16)
                 if not c:
@@ -259,10 +267,10 @@ def burst_worker(a):
                 d.buf += c
             if w_:
                 try:
-                    pos += os.write(d.p.stdin.fileno(), data[pos:pos + 65536])
+                    pos += os.write(d.ifd, data[pos:pos + 65536])
                 except BlockingIOError:
                     pass
-        os.set_blocking(d.p.stdin.fileno(), True)
+        os.set_blocking(d.ifd, True)
         quiet = pos == len(data) and daemon.wait_quiescent(d, 40.0)
         at_rest = d.buf.decode("latin-1").split("\n")
         r = d.finish()
@@ -293,7 +301,7 @@ def burst_worker(a):
     # a client withdrawn at the end of the burst had been decided before (its lines came first)
     extra = [c for c in got if c not in complete]
     twice = [c for c, v in got.items() if len(v) > 1]
-    wit = {"seed": seed, "n": n, "service": bool(a.get("service")), "burst": True, "after": bool(a.get("after"))}
+    wit = {"seed": seed, "n": n, "service": bool(a.get("service")), "burst": True, "after": bool(a.get("after")), "sock": bool(a.get("sock"))}
     if missing:
         res["viol"].append(("C03", "burst-stuck", "burst-stuck", "%d clients were announced and given everything they need in one burst of %d lines (%d bytes, one write); when the daemon had "
                             "drained its input and gone to sleep, %d of them had no verdict (first: %s)\nfirst input lines: %s" % (
@@ -304,8 +312,72 @@ def burst_worker(a):
     if twice or extra:
         res["viol"].append(("C01", "burst-verdicts", "burst-verdicts", "after a burst of %d lines: clients with two verdicts %s, verdicts for clients that were not complete %s" % (
             len(lines), twice[:5], extra[:5]), wit))
+    # C06: the drone check is asked about every one of these clients (each is complete or hurried), exactly once
+    if a.get("service"):
+        asked = {}
+        for ln in at_rest:
+            m = re.match(r"^X drone\.svc ([0-9a-f]+)_[0-9a-f]+ ", ln)
+            if m:
+                asked[int(m.group(1), 16)] = asked.get(int(m.group(1), 16), 0) + 1
+        res["stats"]["burst_queries_seen"] = sum(asked.values())
+        notasked = [c for c in ids if c not in asked]
+        if notasked:
+            res["viol"].append(("C06", "burst-query-missing", "burst-query-missing", "%d clients were announced and completed in one burst of %d lines with a drone-check service configured; "
+                                "when the daemon had drained its input and gone to sleep, no query about %d of them had been written (first: %s)" % (n, len(lines), len(notasked), notasked[:5]), wit))
+    # C07: these clients all got the same lines (but for id and address), so the daemon says the same about each of them, whoever came
+    # before or after: conversations are compared with id, address and the tag's serial blanked (classes differ by address: compared per rule)
+    conv = {}
+    ipof = dict((cid, "10.0.%d.%d" % ((k >> 8) & 255, k & 255)) for k, cid in enumerate(ids))
+    for ln in at_rest:
+        m = re.match(r"^[A-Za-z] (-?\d+) ", ln)
+        who_ = int(m.group(1)) if m else None
+        if m is None:
+            m = re.match(r"^X \S+ ([0-9a-f]+)_[0-9a-f]+ ", ln)
+            who_ = int(m.group(1), 16) if m else None
+        if who_ is None or who_ not in ipof:
+            continue
+        norm = re.sub(r"^X (\S+) [0-9a-f]+_[0-9a-f]+ ", r"X \1 TAG ", ln)
+        norm = re.sub(r"^([A-Za-z]) -?\d+ ", r"\1 ID ", norm).replace(ipof[who_], "IP")
+        conv.setdefault(who_, []).append(norm)
+    groups = {}
+    for k, cid in enumerate(ids):
+        groups.setdefault((use_class and (k >> 8) & 255 == 1, cid in gone), []).append(cid)
+    res["stats"]["burst_conversations_compared"] = len(ids)
+    for gk, members in groups.items():
+        ref = conv.get(members[0], [])
+        odd = [c for c in members if conv.get(c, []) != ref]
+        if odd:
+            res["viol"].append(("C07", "burst-conversation", "burst-conversation", "%d clients were given the same lines in one burst (ids and addresses apart); the daemon's lines about client %d are\n  %s\n"
+                                "but about client %d (and %d more)\n  %s" % (n, members[0], "\n  ".join(ref[:6]), odd[0], len(odd) - 1, "\n  ".join(conv.get(odd[0], [])[:6])), wit))
+            break
     res["sample"] = {"burst_input_head": lines[:4], "lines": len(lines), "verdicts_when_the_daemon_came_to_rest": len(got)}
     return res
+
+
+def fold_bursts(chk, prop, tier, scale, b, mult, nq=8, nt=120):
+    """Burst runs (half of them over a shared socket with a reader who falls behind) judged for one property."""
+    import vcommon
+    from vcommon import Violation
+    jobs = [dict(build=b, seed=chk.seed * mult + k, n=[40, 120, 300, 700][k % 4], service=(k % 3 != 0), after=(k % 5 == 4), sock=(k % 4 in (1, 2)))
+            for k in range(int((nq if tier == "quick" else nt) * scale) or 1)]
+    for r in vcommon.pmap(burst_worker, jobs):
+        chk.add_case(r["hash"], r["nontrivial"])
+        chk.merge_counts(r["stats"])
+        for w in r["inconc"]:
+            chk.inconc(w)
+        for (p, rule, sig, text, wit) in r["viol"]:
+            if p == prop:
+                chk.violation(Violation(p, rule, sig, text, wit))
+    chk.require("burst_runs_on_a_shared_socket", 2 * min(1.0, scale))
+
+
+def replay_burst(chk, w, prop, tag):
+    import prun
+    r = burst_worker(dict(build=prun.build_daemon(tag), seed=w["seed"], n=w["n"], service=w["service"], after=w.get("after"), sock=w.get("sock")))
+    hit = [v for v in r["viol"] if v[0] == prop]
+    for v in hit:
+        print(v[3])
+    return 1 if hit else 0
 
 
 def late_scripts(rng, n):
